@@ -105,6 +105,7 @@ pub fn decode_c12(b: &[u8]) -> c12::Case {
             3 => c12::TOp::Debug,
             4 => c12::TOp::Serialize,
             5 => c12::TOp::CloneFromOther,
+            6 => c12::TOp::RoundTrip,
             _ => c12::TOp::Next(r.inp()),
         });
     }
